@@ -151,14 +151,36 @@ static void cb_getcr(const int *idx, void *u) { const char *s = sp_pool[idx[0]];
   if (c1) Crystal_Free(c1); if (c2) Crystal_Free(c2); if (c3) Crystal_Free(c3);
   sp_leak("Crystal_GetCrystal", b0, redo_getcr, (void *)s); }
 
-static void do_misc_crystal(void) { xrl_error *e = NULL; Crystal_Struct *c; Crystal_Array *a; int k; static const int ns[] = { -5, -1, 0, 1, 7, INT_MIN };
+static void do_misc_crystal(void) { xrl_error *e = NULL; Crystal_Struct *c; Crystal_Array *a; int k;
+  /* capacities: invalid, tiny, and large ones whose byte size leaves 32 bits (1<<28 * sizeof(Crystal_Struct) etc.): refused cleanly or really that large */
+  static const int ns[] = { -5, -1, 0, 1, 7, INT_MIN, 1 << 28, 53687092, 161061274, 1 << 29 };
   SP_LAST("Crystal_MakeCopy(NULL)"); c = Crystal_MakeCopy(NULL, &e); Crystal_MakeCopy(NULL, NULL); sw_contract(F_MakeCopy, e, c == NULL, 1, 0, sp_w);
-  for (k = 0; k < 6; k++) { e = NULL; SP_LAST("Crystal_ArrayInit(%d)", ns[k]); a = Crystal_ArrayInit(ns[k], &e); sw_contract(F_ArrayInit, e, a == NULL, 1, 0, sp_w);
+  /* a caller-described crystal (stored volume left 0) added so that it sorts BEFORE an existing entry, then used */
+  e = NULL; SP_LAST("ArrayInit(2); AddCrystal(<Si as 'Zzz'>); AddCrystal(<from scratch 'Aaa', volume 0>); GetCrystal('Aaa'); Crystal_dSpacing");
+  a = Crystal_ArrayInit(2, NULL); c = Crystal_GetCrystal("Si", NULL, NULL);
+  if (a && c) { Crystal_Struct u; Crystal_Atom at[2]; Crystal_Struct *g; double v; int r1, r2;
+    free(c->name); c->name = strdup("Zzz"); r1 = Crystal_AddCrystal(c, a, NULL);
+    memset(&u, 0, sizeof u); u.name = (char *)"Aaa"; u.a = 4.0; u.b = 5.0; u.c = 6.0; u.alpha = 80; u.beta = 95; u.gamma = 100; u.volume = 0.0; u.n_atom = 2; u.atom = at;
+    at[0].Zatom = 14; at[0].fraction = 1; at[0].x = at[0].y = at[0].z = 0; at[1] = at[0]; at[1].Zatom = 8; at[1].x = 0.5;
+    r2 = Crystal_AddCrystal(&u, a, &e); sw_contract(F_AddCr, e, r2 == 0, 1, 0, sp_w);
+    e = NULL; g = Crystal_GetCrystal("Aaa", a, &e); sw_contract(F_GetCrystal, e, g == NULL, 1, 0, sp_w);
+    if (g) { e = NULL; v = Crystal_dSpacing(g, 1, 1, 1, &e); sw_contract(F_dSp, e, v == 0.0, isfinite(v), v == 0.0, sp_w);
+      e = NULL; v = Bragg_angle(g, 12.0, 1, 1, 1, &e); sw_contract(F_Bragg, e, v == 0.0, isfinite(v), v == 0.0, sp_w); Crystal_Free(g); }
+    (void)r1; }
+  if (c) Crystal_Free(c); if (a) Crystal_ArrayFree(a);
+  e = NULL;
+  for (k = 0; k < (int)(sizeof ns / sizeof ns[0]); k++) { e = NULL; SP_LAST("Crystal_ArrayInit(%d)", ns[k]); a = Crystal_ArrayInit(ns[k], &e); sw_contract(F_ArrayInit, e, a == NULL, 1, 0, sp_w);
     if (a) { int n = -1; char **l; e = NULL; SP_LAST("Crystal_GetCrystalsList(<empty array>)"); l = Crystal_GetCrystalsList(a, &n, &e); sw_contract(F_CrList, e, l == NULL, 1, 0, sp_w); if (n != 0) sw_violation("Crystal_GetCrystalsList", "wrong-count", "", sp_w); free_list(l);
       e = NULL; SP_LAST("Crystal_AddCrystal(NULL,<array>)"); { int r = Crystal_AddCrystal(NULL, a, &e); Crystal_AddCrystal(NULL, a, NULL); sw_contract(F_AddCr, e, r == 0, 1, 0, sp_w); }
       e = NULL; SP_LAST("Crystal_ReadFile(NULL,<array>)"); { int r = Crystal_ReadFile(NULL, a, &e); Crystal_ReadFile(NULL, a, NULL); sw_contract(F_ReadFile, e, r == 0, 1, 0, sp_w); }
       e = NULL; SP_LAST("Crystal_ReadFile('/nonexistent/xv',<array>)"); { int r = Crystal_ReadFile("/nonexistent/xv", a, &e); Crystal_ReadFile("/nonexistent/xv", a, NULL); sw_contract(F_ReadFile, e, r == 0, 1, 0, sp_w); }
       e = NULL; SP_LAST("Crystal_GetCrystal('Si',<empty array>)"); c = Crystal_GetCrystal("Si", a, &e); sw_contract(F_GetCrystal, e, c == NULL, 1, 0, sp_w); if (c) Crystal_Free(c);
+      /* the array announces room for ns[k] crystals: store two and read them back */
+      { Crystal_Struct *s1 = Crystal_GetCrystal("Si", NULL, NULL), *s2 = Crystal_GetCrystal("Ge", NULL, NULL), *g; int r;
+        if (s1 && s2) { e = NULL; SP_LAST("Crystal_ArrayInit(%d) then AddCrystal(Si), AddCrystal(Ge), GetCrystal", ns[k]);
+          r = Crystal_AddCrystal(s1, a, &e); sw_contract(F_AddCr, e, r == 0, 1, 0, sp_w); e = NULL; r = Crystal_AddCrystal(s2, a, &e); sw_contract(F_AddCr, e, r == 0, 1, 0, sp_w);
+          e = NULL; g = Crystal_GetCrystal("Ge", a, &e); sw_contract(F_GetCrystal, e, g == NULL, 1, 0, sp_w); if (g) { if (g->n_atom != s2->n_atom) sw_violation("Crystal_GetCrystal", "wrong-answer", "", sp_w); Crystal_Free(g); } }
+        if (s1) Crystal_Free(s1); if (s2) Crystal_Free(s2); }
       Crystal_ArrayFree(a); }
     a = Crystal_ArrayInit(ns[k], NULL); if (a) Crystal_ArrayFree(a); }
   e = NULL; SP_LAST("Crystal_AddCrystal(<Si copy>,NULL) duplicate"); c = Crystal_GetCrystal("Si", NULL, NULL);
